@@ -336,8 +336,13 @@ impl StorageEngine {
         
         match shard_guard.data.get(key) {
             Some(stored_value) if !stored_value.is_expired() => {
+                // `SystemTime + Duration` panics on overflow, and a time to live can fit the monotonic
+                // clock without fitting the wall clock (EXPIRE k 9223372036000000000): such a deadline
+                // is capped about a hundred years out, as deadline_after does
                 let expiry = stored_value.metadata.expires_at.map(|at| {
-                    std::time::SystemTime::now() + at.saturating_duration_since(Instant::now())
+                    let now = std::time::SystemTime::now();
+                    now.checked_add(at.saturating_duration_since(Instant::now()))
+                        .unwrap_or_else(|| now + Duration::from_secs(100 * 365 * 24 * 60 * 60))
                 });
                 // Cloning a sorted set only clones the Arc: the caller would keep seeing later
                 // writes. A snapshot needs its own copy.
